@@ -16,6 +16,10 @@ ANCHORS = [
 ]   # functions whose code the property is anchored in (mutation analysis, evidence)
 ROT = ["region.Region.rotate90", "mesh.Mesh.rotate90", "field.Field.rotate90"]
 
+AUTOMUT_TRIAGE = [
+    (r"Field\.rotate90$", r"drop keyword inplace=", "equivalent: inplace=False is Mesh.rotate90's default"),
+]
+
 
 def run(chk):
     repo = chk.repo
@@ -29,6 +33,8 @@ def run(chk):
     geom.mesh_siblings(chk, "C12", only=["mesh.Mesh.rotate90"])
     geom.field_rotate_siblings(chk, "C12")
     d6_refusal(chk, repo)
+    geom.refusal_table(chk, "C12", quals=["region.Region.rotate90"])
+    geom.defaults_table(chk, "C12", quals=["region.Region.rotate90"])
     from .c07 import corner_copies_hold_floats
     corner_copies_hold_floats(chk, repo, "C12", ["region.Region.rotate90"], floor=4)
     chk.trust("np.rot90(m, k, axes=(a, b)) rotates by k quarter turns from axis a towards axis b (numpy reference)")
